@@ -470,12 +470,23 @@ func (c *connection) waitRead(n int) (err error) {
 	for c.inputBuffer.Len() < n {
 		switch c.status(closing) {
 		case poller:
+			// the data may have arrived (before the close) after Len() was checked
+			if c.inputBuffer.Len() >= n {
+				return nil
+			}
 			return Exception(ErrEOF, "wait read")
 		case user:
+			if c.inputBuffer.Len() >= n {
+				return nil
+			}
 			return Exception(ErrConnClosed, "wait read")
 		default:
 			err = <-c.readTrigger
 			if err != nil {
+				// a closer's error: the data may have been booked before the close
+				if c.inputBuffer.Len() >= n {
+					return nil
+				}
 				return err
 			}
 		}
@@ -494,10 +505,17 @@ func (c *connection) waitReadWithTimeout(n int, timeout time.Duration) (err erro
 	for c.inputBuffer.Len() < n {
 		switch c.status(closing) {
 		case poller:
+			// the data may have arrived (before the close) after Len() was checked
+			if c.inputBuffer.Len() >= n {
+				goto RET
+			}
 			// cannot return directly, stop timer first!
 			err = Exception(ErrEOF, "wait read")
 			goto RET
 		case user:
+			if c.inputBuffer.Len() >= n {
+				goto RET
+			}
 			// cannot return directly, stop timer first!
 			err = Exception(ErrConnClosed, "wait read")
 			goto RET
@@ -511,6 +529,10 @@ func (c *connection) waitReadWithTimeout(n int, timeout time.Duration) (err erro
 				return Exception(ErrReadTimeout, c.remoteAddrString())
 			case err = <-c.readTrigger:
 				if err != nil {
+					// a closer's error: the data may have been booked before the close
+					if c.inputBuffer.Len() >= n {
+						err = nil
+					}
 					goto RET
 				}
 				continue
